@@ -1,7 +1,7 @@
 """C03 — positions are true (DESIGN §2 C03)."""
 from hypothesis import strategies as st
 
-from ..common import BOM, advance, crash_signature, digest, grammar, is_zero_width, leaves, short
+from ..common import BOM, PROVENANCES, advance, crash_signature, digest, grammar, is_zero_width, leaves, short, tree_via
 from ..engine import Outcome, Prop
 from ..gen import text as T
 
@@ -94,7 +94,8 @@ class C03(Prop):
             'get_start_pos_of_prefix of every leaf, node extents = first/last leaf, module.end_pos = end of input and '
             'line count = breaks+1; zero-width INDENT/DEDENT/ERROR_DEDENT error leaves must be empty and sit at the start '
             'of the next real leaf value. Non-trivial: a token spans >=2 lines, or text has CR/BOM/non-Python separator, '
-            'or a zero-width error leaf exists.')
+            'or a zero-width error leaf exists. Tree provenance (3 of 7 cases): the tree of the text is reached by an in-place diff_cache update from a '
+            'line-edited earlier text whose positions were read first, through pickle, or is read twice - positions must be true on every tree the library hands out.')
     assumptions = ['reading of zero-width indentation leaves fixed in DESIGN §2 C03 / §4.1']
     fuzz = True       # thorough/quick runs add an atheris sub-tier with this check as the in-target oracle
     budgets = {'quick': 24000, 'thorough': 640000}
@@ -103,28 +104,31 @@ class C03(Prop):
         kinds = ('repo',) if tier == 'quick' else ('repo', 'stdlib3.12')
         w = {'quote': 4, 'fquote': 3, 'str': 4, 'layout': 9, 'odd': 3, 'fbit': 2}
         return st.fixed_dictionaries({'code': T.adversarial_text(corpus_kinds=kinds, weights=w, nest_depth=40),
-                                      'version': T.version()})
+                                      'version': T.version(), 'prov': st.sampled_from(PROVENANCES), 'how': st.integers(0, 10 ** 4)})
 
     def check(self, case):
         code, v = case['code'], case['version']
         try:
-            m = grammar(v).parse(code)
+            m, prov = tree_via(grammar(v), code, case.get('prov', 'fresh'), case.get('how', 0), digest(code, v, 'c03').hex(),
+                               lambda mod, text: check_positions(mod, text))
             fail, info = check_positions(m, code)
+            if fail is not None and prov != 'fresh':
+                fail = (fail[0], 'tree provenance %s: %s' % (prov, fail[1]))
         except RecursionError:
             return Outcome(excluded='recursion-limit')
         except Exception as e:
             return Outcome(fail=crash_signature(e), nontrivial=True, key=digest(code, v))
-        classes = T.classify_text(code)
+        classes = T.classify_text(code) + ['tree:' + prov]
         if info['multiline_token']:
             classes.append('multiline-token')
         if info['zero_width']:
             classes.append('zero-width-leaf')
         nt = info['multiline_token'] or info['zero_width'] or any(
             c in classes for c in ('cr', 'bom', 'non-python-separator', 'formfeed'))
-        return Outcome(fail=fail, nontrivial=nt, classes=classes, key=digest(code, v))
+        return Outcome(fail=fail, nontrivial=nt, classes=classes, key=digest(code, v, prov))
 
     def sample_repr(self, case):
-        return {'code': short(case['code'], 200), 'version': case['version']}
+        return {'code': short(case['code'], 200), 'version': case['version'], 'tree': case.get('prov', 'fresh')}
 
 
 PROP = C03()
